@@ -120,7 +120,7 @@ theorem heldInv_step (L : Lawful P Ok) (H : Protects P Ok prot) (U : Unprotects 
       subst ht
       exact hh j s hs r (hf j s hs r hr)
   cases op with
-  | ins key ver weight hint phantom =>
+  | ins key ver weight hint phantom loc age =>
     simp only [Cache.step]
     split
     · exact hh
@@ -163,7 +163,7 @@ theorem heldInv_step (L : Lawful P Ok) (H : Protects P Ok prot) (U : Unprotects 
             obtain ⟨x, hx, hxe⟩ := List.mem_map.mp hc'
             have := (L.remove_mem _ _ h1.ok hm x).mp hx
             exact hfresh1 x ((h1.mem_iff x).mp this.1) hxe
-          have hr' : r ∈ prot (P.push (P.remove s1.ev old) { id := c.nextId, key, hash := cfg.H key, ver, weight, hint, phantom := false }) := hr
+          have hr' : r ∈ prot (P.push (P.remove s1.ev old) { id := c.nextId, key, hash := cfg.H key, ver, weight, hint, phantom := false, loc, age }) := hr
           rw [H.push _ _ hokr hnotin] at hr'
           rw [← hev.1]
           exact (U.remove_sub s1.ev old h1.ok hm r hr').1
@@ -171,7 +171,7 @@ theorem heldInv_step (L : Lawful P Ok) (H : Protects P Ok prot) (U : Unprotects 
             intro hc'
             obtain ⟨x, hx, hxe⟩ := List.mem_map.mp hc'
             exact hfresh1 x ((h1.mem_iff x).mp hx) hxe
-          have hr' : r ∈ prot (P.push s1.ev { id := c.nextId, key, hash := cfg.H key, ver, weight, hint, phantom := false }) := hr
+          have hr' : r ∈ prot (P.push s1.ev { id := c.nextId, key, hash := cfg.H key, ver, weight, hint, phantom := false, loc, age }) := hr
           rw [H.push _ _ h1.ok hnotin] at hr'
           rw [← hev.1]; exact hr'
   | get key =>
